@@ -8,10 +8,17 @@ from .core import MachineryError
 
 
 # --------------------------------------------------------------------------- objects
+# WIDE (off by default; switched on by the C01 driver only, inside its own worker processes): int / str / float objects
+# outside the universe are encoded with their exact payload instead of the payload "other".
+WIDE = False
+
+
 def obj_to_py(o: dict) -> Any:
     c, v, items = o["c"], o["v"], o.get("items", [])
     if c == "type":
         return U.CLASSES[v]
+    if c == "odd":  # C12: odd objects (add-only)
+        return U.ODD[v]
     if c in ("list", "tuple", "set"):
         elts = [obj_to_py(x) for x in items]
         return {"list": list, "tuple": tuple, "set": set}[c](elts)
@@ -36,6 +43,10 @@ def py_to_obj(x: Any) -> dict:
     for (c, v), val in U.SCALARS.items():
         if type(val) is t and val == x:
             return {"c": c, "v": v, "items": []}
+    if WIDE and t in (int, str, float) and (t is not float or x - x == 0):
+        # C01: scalars outside the universe keep their identity (payload = the text the universe uses for its own
+        # scalars: str(int), repr(float), the string itself), so that Literal types of computed values are judged exactly
+        return {"c": t.__name__, "v": x if t is str else (str(x) if t is int else repr(x)), "items": []}
     cname = U.CLASS_NAME.get(t, "other")
     return {"c": cname, "v": "other", "items": []}
 
@@ -98,7 +109,87 @@ def term_to_value(t: dict):
         if not t["ms"]:
             return V.NO_RETURN_VALUE
         return V.MultiValuedValue([term_to_value(m) for m in t["ms"]])
+    # ---- C12 wide term space (spec/Values.tla OddTerms); add-only
+    if k == "tvar":
+        tv = {"TB": U.TB, "TC": U.TC, "PSPEC": U.PSPEC, "TVT": U.TVT, "T": U.T, "S": U.S}[t["n"]]
+        return V.TypeVarValue(tv, bound=term_to_value(t["bound"][0]) if t.get("bound") else None,
+                              constraints=tuple(term_to_value(c) for c in t.get("cons", [])),
+                              is_paramspec=t["n"] == "PSPEC", is_typevartuple=t["n"] == "TVT")
+    if k == "callable":
+        from pyanalyze import signature as S
+
+        kinds = {"pos": S.ParameterKind.POSITIONAL_ONLY, "pk": S.ParameterKind.POSITIONAL_OR_KEYWORD,
+                 "kw": S.ParameterKind.KEYWORD_ONLY, "var": S.ParameterKind.VAR_POSITIONAL,
+                 "varkw": S.ParameterKind.VAR_KEYWORD, "pspec": S.ParameterKind.PARAM_SPEC,
+                 "ellipsis": S.ParameterKind.ELLIPSIS}
+        params = []
+        for prm in t["ps"]:
+            kwargs = {}
+            if prm.get("t"):
+                kwargs["annotation"] = term_to_value(prm["t"][0])
+            if prm.get("d"):
+                kwargs["default"] = V.KnownValue(None)
+            params.append(S.SigParameter(prm["n"], kinds[prm["kind"]], **kwargs))
+        return V.CallableValue(S.Signature.make(params, term_to_value(t["ret"]), is_asynq=bool(t.get("asynq", False))))
+    if k == "annotated":
+        md = []
+        for m in t["md"]:
+            md.append(_extension(m))
+        return V.AnnotatedValue(term_to_value(t["t"]), md)
+    if k == "unpacked":
+        return V.UnpackedValue(term_to_value(t["t"]))
+    if k == "psargs":
+        return V.ParamSpecArgsValue(U.PSPEC)
+    if k == "pskwargs":
+        return V.ParamSpecKwargsValue(U.PSPEC)
+    if k == "special":
+        from pyanalyze.stacked_scopes import Composite
+
+        return {"void": V.VoidValue(), "uninitialized": V.UNINITIALIZED_VALUE, "synthmodule": V.SyntheticModuleValue(("_typeshed",)),
+                "unboundmethod": V.UnboundMethodValue("append", Composite(V.TypedValue(list))),
+                "varname": V.VariableNameValue(["uid"]), "synthtyped": V.TypedValue("_typeshed.SupportsWrite"),
+                "synthgeneric": V.GenericValue("_typeshed.SupportsWrite", [V.TypedValue(int)]),
+                "asynctask": V.AsyncTaskIncompleteValue(list, V.TypedValue(int)),
+                "knowntv": V.KnownValueWithTypeVars(U.odd_function, {U.T: V.TypedValue(int)}),
+                # bound methods as the visitor infers them for an attribute of a receiver of known type
+                **{"um_" + m: V.UnboundMethodValue(m, Composite(V.TypedValue(U.OddMethods)))
+                   for m in ("plain", "noparams", "kwonly", "kwargs_only", "varargs", "selfann", "defaults", "cm", "sm", "__call__")},
+                "um_known_receiver": V.UnboundMethodValue("noparams", Composite(V.KnownValue(U.ODD["callable_obj"]))),
+                "um_missing": V.UnboundMethodValue("no_such_method", Composite(V.TypedValue(U.OddMethods))),
+                "typedcallable": V.TypedValue(__import__("collections").abc.Callable),
+                "callbackproto": V.TypedValue(U.CallbackProto)}[t["n"]]
     raise MachineryError(f"cannot decode term {t}")
+
+
+def _extension(m: dict):
+    """metadata of an AnnotatedValue term: a Value term or one of pyanalyze's Extension objects"""
+    from pyanalyze import extensions as E
+    from pyanalyze import value as V
+
+    kind = m["x"]
+    if kind == "value":
+        return term_to_value(m["t"])
+    if kind == "literalonly":
+        return V.CustomCheckExtension(E.LiteralOnly())
+    if kind == "noany":
+        return V.CustomCheckExtension(E.NoAny(deep=True))
+    if kind == "hasattr":
+        return V.HasAttrExtension(V.KnownValue("x"), term_to_value(m["t"]))
+    if kind == "typeguard":
+        return V.TypeGuardExtension(term_to_value(m["t"]))
+    if kind == "typeis":
+        return V.TypeIsExtension(term_to_value(m["t"]))
+    if kind == "paramguard":
+        return V.ParameterTypeGuardExtension("x", term_to_value(m["t"]))
+    if kind == "alwayspresent":
+        return V.AlwaysPresentExtension()
+    if kind == "definite":
+        return V.DefiniteValueExtension(True)
+    if kind == "sysplatform":
+        return V.SysPlatformExtension()
+    if kind == "deprecated":
+        return V.DeprecatedExtension("old")
+    raise MachineryError(f"cannot decode extension {m}")
 
 
 def value_to_term(v, dictinc: bool = False) -> dict:
